@@ -160,11 +160,29 @@ def theorems_of(prop_id):
     return names
 
 
+# non-vacuity witnesses (Crusta/Proofs/NonVacuity.lean imports the Props files, so it is audited alongside them):
+# concrete runs on which all hypotheses of the property theorems hold, and the theorems applied to them
+WITNESSES = {
+    "C01": ["static_hyps_PR_se", "static_hyps_ST_se_none", "static_concl_ST_se_none"],
+    "C02": ["static_hyps_CO_dc", "static_concl_CO_dc"],
+    "C03": ["static_hyps_PR_ds", "static_concl_PR_ds"],
+    "C04": ["static_hyps_CO_dc", "static_concl_CO_dc", "static_concl_PR_ds"],
+    "C06": ["c06_hyps"],
+    "C07": ["static_hyps_CO_dc", "static_hyps_PR_ds"],
+    "C15": ["c15_hyps", "c15_concl"],
+    "C18": ["c18_hyps", "c18_concl", "static_hyps_PR_ds"],
+    "C19": ["c19_hyps", "c19_concl"],
+}
+WITNESS_MODULE = "Crusta.Proofs.NonVacuity"
+
+
 def audit(prop_id, run_dir):
     """Returns (ok, discharged_names, problems, raw). Re-elaborates nothing: prints the axioms of
-    every theorem of Props/<id>.lean from the compiled .olean."""
+    every theorem of Props/<id>.lean (and of its non-vacuity witnesses) from the compiled .olean."""
     names = theorems_of(prop_id)
-    src = "import Crusta.Props.%s\n" % prop_id + "".join("#print axioms %s\n" % n for n in names)
+    wit = ["Crusta.NonVacuity." + n for n in WITNESSES.get(prop_id, [])]
+    names = names + wit
+    src = "import Crusta.Props.%s\n" % prop_id + ("import %s\n" % WITNESS_MODULE if wit else "") + "".join("#print axioms %s\n" % n for n in names)
     f = os.path.join(run_dir, "Audit_%s.lean" % prop_id)
     open(f, "w").write(src)
     rc, out = sh(["lake", "env", "lean", f], cwd=LEAN_DIR, timeout=1200)
